@@ -84,6 +84,12 @@ def check(spec):
         actual[abstractify(o)] += 1
     declared = Counter({k: v for k, v in rule.compute_resources(**params).gate_counts.items() if v > 0})
     tag = f"{spec['key']}:{spec['rule']}"
+    # the declaration must not depend on how often (or in which order) it was asked for: query it twice more, the second time
+    # with a rebuilt instance, and demand the same answer (catches shared/cached resource dicts that are mutated in place)
+    for again in (params, X.decomp_args(X.instance(spec["expr"])[0])[0]):
+        declared2 = Counter({k: v for k, v in rule.compute_resources(**again).gate_counts.items() if v > 0})
+        if declared2 != declared:
+            return bad(f"declared-resources-change-between-queries:{tag}", _fmt(declared2), _fmt(declared), expr=spec["expr"])
     exact = bool(rule.exact_resources)
     fine = (actual == declared) if exact else all(k in declared for k in actual)
     if not fine:
